@@ -111,7 +111,7 @@ def run(ctx):
               "components builder must agree (1e-7 relative), be >= 0, and M must equal sum_i w_i b_i b_i^T on exact "
               "rationals; runs in which a hinge test comes within 1e-6 of zero are counted as skipped_ill_conditioned.  "
               "non-trivial = at least one active basis element.")
-  ctx.trusted = ["Coq 8.16.1 kernel + vm_compute", "hand-written model Model/SCML.v tied by the re-run",
+  ctx.trusted = ["translator tools/translate_scml.py + tools/pynum.py / Base/NPNum.v (one iteration, checkpoint test and objective; loop header hand-written in Proofs/C15Src.v), text pins (basis generation, components builder)", "Coq 8.16.1 kernel + vm_compute", "hand-written model Model/SCML.v tied by the re-run",
                  "oracles: basis generators (eigh / KMeans / LDA): post-condition n_basis unit-norm rows checked per run",
                  "binary64 rounding: model and implementation may sum in different orders (tolerance 1e-7)"]
   ok = ctx.build_property(gen_needed=['Src_scml'])
